@@ -521,6 +521,20 @@ Proof.
     + unfold r_move. simpl. intros H; inv_out H; auto.
     + unfold r_move. simpl. destruct s; intros H; inv_out H; auto.
     + now apply wf_move.
+  - (* movebetween *) unfold r_movebetween. destruct (parg_eqb p q); [intros H; inv_out H; auto|].
+    destruct q as [|d dtr]; [destruct p as [|[|? ?] ?]; intros H; inv_out H; auto|].
+    destruct p as [|s str]; [intros H; inv_out H; auto|]. destruct s as [|n s]; [discriminate|].
+    destruct (arg_conflict t (n :: s) str || arg_conflict t d dtr); [discriminate|].
+    destruct (exists_ t (n :: s) && is_dir t d && path_eqb (d ++ [base (n :: s)]) (n :: s)); [intros H; inv_out H; auto|].
+    destruct (r_copy t (P (n :: s) str) (P d dtr)) as [|r1 t1] eqn:E; [discriminate|].
+    pose proof (wf_copy _ _ _ _ _ _ W E) as W1. destruct r1; intros H; inv_out H; auto. now apply wf_remove_sub.
+  - (* createfile *) destruct p as [|p tr]; simpl; intros H; [inv_out H; auto|].
+    destruct (through_file t p || tr || is_dir t p) eqn:C; [discriminate|]. apply orb_false_iff in C as [_ Nd].
+    destruct (is_dir t (parent p)) eqn:Pd; inv_out H; auto. apply wf_set_file; auto. intros ->. discriminate Nd.
+  - (* openfile with O_CREATE *) destruct p as [|p tr]; simpl; intros H; [inv_out H; auto|].
+    destruct (through_file t p || tr || is_dir t p) eqn:C; [discriminate|]. apply orb_false_iff in C as [_ Nd].
+    destruct (is_file t p); [inv_out H; auto|].
+    destruct (is_dir t (parent p)) eqn:Pd; inv_out H; auto. apply wf_set_file; auto. intros ->. discriminate Nd.
 Qed.
 
 Lemma run_preserves_wf_l cs : forall t t', wf t -> run t cs = Some t' -> wf t'.
